@@ -44,4 +44,31 @@ theorem multLabel_sound (ident : Label → Bool) (den : Label → Matrix n n ℂ
     · rename_i h; rw [hi b h, Matrix.mul_one]
     · exact hd.mult a b
 
+/-- per-site soundness of the four labelling shortcuts (restated as a property theorem in
+    `Props.lean`) -/
+theorem label_shortcuts_sound' (fl : Flags) (jk : List Label) (den : Label → Matrix n n ℂ)
+    (hd : DictSound den) (hf : FlagsSound fl den) (l : Label) :
+    den (if fl.symH l then l else l ++ "_T") = (den l)ᵀ ∧
+    den (if fl.real l then l else l ++ "_conj") = (den l).map star ∧
+    den (prodLabel fl jk l) = (den l)ᴴ * den l ∧
+    den (if fl.symJ (prodLabel fl jk l) then prodLabel fl jk l else prodLabel fl jk l ++ "_T") =
+      ((den l)ᴴ * den l)ᵀ := by
+  have hp : den (prodLabel fl jk l) = (den l)ᴴ * den l := by
+    simp only [prodLabel]
+    rw [multLabel_sound _ den hd (idDictAfterH_sound fl den hf jk)]
+    congr 1
+    split
+    · rename_i h; exact (hf.herm l h).symm
+    · exact hd.adj l
+  refine ⟨?_, ?_, hp, ?_⟩
+  · split
+    · rename_i h; exact (hf.symH l h).symm
+    · exact hd.transp l
+  · split
+    · rename_i h; exact (hf.real l h).symm
+    · exact hd.conj l
+  · split
+    · rename_i h; rw [← hp]; exact (hf.symJ _ h).symm
+    · rw [hd.transp, hp]
+
 end Ptn.C15
